@@ -146,6 +146,16 @@ Definition vi_dict (max_iter : nat) (eps : T) : list T * nat :=
 
 End C01.
 
+(* exact optimality certificate: V is a fixed point of the (masked) optimality operator.
+   Used (i) for the non-vacuity examples and (ii) by the harness' violation search, which
+   finds V* by exact policy iteration in Python and has Coq confirm it here. *)
+Definition fixb {T} {NT : Num T} (m : mdp T) (V : list T) : bool :=
+  forallbn (nS m) (fun s =>
+    match backup m (untab V) s with
+    | Some b => neqb (untab V s) b
+    | None => false
+    end).
+
 (* constructing the model from the arrays the implementation exposes *)
 Definition mk_mdp {T} {NT : Num T} (nS nA : nat) (P R : list (list (list T)))
            (av : list (list bool)) (absf : list bool) (ini : list T) (g : T) : mdp T :=
